@@ -110,6 +110,7 @@ pub struct SchedState {
     lonely_yields: u32,
     directive: Vec<u8>,
     dir_pos: usize,
+    strict: bool,
 }
 
 static mut S: Option<SchedState> = None;
@@ -139,6 +140,7 @@ pub fn init(cfg: &Cfg) {
         lonely_yields: 0,
         directive: cfg.directive.clone(),
         dir_pos: 0,
+        strict: cfg.strict_deviations,
     };
     s.tasks[0].used = true;
     s.tasks[0].canon = 1;
@@ -425,8 +427,8 @@ fn decide(me: usize) -> Option<(usize, Decision)> {
     let mut cost_mask = 0u32;
     for (i, a) in alts.iter().enumerate() {
         let cost = match a {
-            Alt::Run(t) => i > 0 && me_enabled && *t != me,
-            Alt::Timer(_) | Alt::Eintr(_) => nrun2 > 0 && i > 0,
+            Alt::Run(t) => i > 0 && ((me_enabled && *t != me) || s.strict),
+            Alt::Timer(_) | Alt::Eintr(_) => (nrun2 > 0 || s.strict) && i > 0,
         };
         if cost {
             cost_mask |= 1 << i;
